@@ -105,6 +105,43 @@ def paren_depth(tokens: list[str]) -> int:
 	return m
 
 
+def walrus_then_if(tokens: list[str]) -> bool:
+	"""`t := v if c else d` with the conditional at the walrus's own bracket level: the known grouping difference
+	(group:walrus-over-ternary) is generated on purpose by `walrus_ternary_sentences`, not by the generic sampler."""
+	for i, t in enumerate(tokens):
+		if t != ':=':
+			continue
+		depth = 0
+		for u in tokens[i + 1:]:
+			if u in ('(', '[', '{'):
+				depth += 1
+			elif u in (')', ']', '}'):
+				depth -= 1
+				if depth < 0:
+					break
+			elif depth == 0 and u in (',', '\n'):
+				break
+			elif depth == 0 and u == 'if':
+				return True
+	return False
+
+
+def walrus_ternary_sentences(world: PyWorld, n: int) -> list[tuple[str, list[str], str]]:
+	"""`( name := A if B else C )` in parentheses, as call argument and as list element, A/B/C sampled from `comp_or`."""
+	rng = world.rng
+	out = []
+	s = world.sampler(30)
+	for _ in range(n):
+		name = rng.choice(gramlib.NAME_POOL[2:8])
+		a, b, c = (s.derive('comp_or', budget=rng.choice([1, 3, 6])) for _ in range(3))
+		core = [name, ':=', *a, 'if', *b, 'else', *c]
+		toks = rng.choice([['(', *core, ')'], ['f', '(', *core, ')'], ['[', *core, ',', 'z', ']'], ['x', '=', '(', *core, ')']]) + ['\n']
+		text, exact = world.text_of(toks)
+		if exact:
+			out.append(('walrus-ternary', toks, text))
+	return out
+
+
 def gen_sentences(world: PyWorld, n: int, max_tokens: int, max_paren: int, keep_inexact: bool = False) -> list[tuple[str, list[str], str]]:
 	"""(level, derived tokens, text); bounded size (the engine is exponential in bracket nesting). By default only texts whose real
 	token strings equal the derivation; with `keep_inexact` also the plainly spaced rendering of a derivation the tokenizer does not
@@ -115,7 +152,7 @@ def gen_sentences(world: PyWorld, n: int, max_tokens: int, max_paren: int, keep_
 		attempts += 1
 		level = 'expr' if world.rng.random() < 0.45 else 'stmt'
 		toks = world.sentence(level, world.rng.choice([0, 0, 1, 1, 2]))
-		if len(toks) > max_tokens or paren_depth(toks) > max_paren:
+		if len(toks) > max_tokens or paren_depth(toks) > max_paren or walrus_then_if(toks):
 			continue
 		text, exact = world.text_of(toks)
 		if not exact and not keep_inexact:
@@ -399,7 +436,8 @@ def search_cpython(ctx: Ctx) -> SearchResult:
 	hist: Counter[str] = Counter()
 	seen: set[str] = set()
 	# defect-candidate witnesses and past findings first
-	for level, toks, text in gen_sentences(world, ctx.scale(700, 6000), ctx.scale(70, 120), 3, keep_inexact=True):
+	purpose = walrus_ternary_sentences(world, ctx.scale(6, 40))
+	for level, toks, text in purpose + gen_sentences(world, ctx.scale(700, 5000), ctx.scale(70, 120), 3, keep_inexact=True):
 		res.cases += 1
 		if text not in seen:
 			seen.add(text)
@@ -434,7 +472,7 @@ def search_cpython(ctx: Ctx) -> SearchResult:
 			continue
 		if got != want:
 			hist[f'{level}:MISMATCH'] += 1
-			res.findings.append(Finding(key=f'tree-mismatch:{pycanon.shape_of(want)}', what=f'engine tree differs from CPython ast for {text!r}',
+			res.findings.append(Finding(key=pycanon.mismatch_key(got, want), what=f'engine tree differs from CPython ast for {text!r}',
 				replay={'text': text, 'engine': repr(got), 'cpython': repr(want), 'tree': repr(payload)}))
 		else:
 			hist[f'{level}:equal'] += 1
@@ -459,7 +497,7 @@ def search_mutated(ctx: Ctx) -> SearchResult:
 			if fn.endswith('.json'):
 				with open(os.path.join(d, fn), encoding='utf-8') as f:
 					texts.extend(('corpus', t) for t in json.load(f).get('texts', []))
-	for level, toks, text in gen_sentences(world, ctx.scale(350, 2500), ctx.scale(60, 100), 3):
+	for level, toks, text in gen_sentences(world, ctx.scale(350, 2000), ctx.scale(60, 100), 3):
 		for _ in range(2):
 			mtoks, mk = gramlib.mutate_tokens(toks, rng, world.vocabulary)
 			if paren_depth(mtoks) <= 4:
@@ -499,7 +537,7 @@ def search_mutated(ctx: Ctx) -> SearchResult:
 				continue
 			if got != want:
 				hist['accepted:MISMATCH'] += 1
-				res.findings.append(Finding(key=f'tree-mismatch:{pycanon.shape_of(want)}', what=f'engine tree differs from CPython ast for {text!r}',
+				res.findings.append(Finding(key=pycanon.mismatch_key(got, want), what=f'engine tree differs from CPython ast for {text!r}',
 					replay={'text': text, 'engine': repr(got), 'cpython': repr(want)}))
 			else:
 				hist['accepted:equal'] += 1
@@ -558,6 +596,8 @@ STATEMENTS = {
 	'T3_yield': 'the named-terminal leaves of a successful match, in order, are exactly the consumed tokens that were matched by named terminal rules; the consumed tokens are exactly the span, in source order',
 	'T4_chain': 'a match of a ladder-shaped pattern (N op)* N yields the flat chain n_k o_k … o_1 n_0 in source order, each item a successful match of N resp. op laid end to end over the consumed span',
 	'T4_ladders_py': 'comp_or, comp_and, comp, calc_sum, calc_mul of the generated py table are exactly ladder rules (kernel-decided), chained level by level',
+	'walrus_ternary_engine': 'kernel-evaluated: on the generated py rules the engine model reads ( x := a if c else d ) as ternary[expr_move[x, a], c, d]',
+	'walrus_ternary_counterexample': 'hence not CPython\'s grouping expr_move[x, ternary[a, c, d]] — the known finding group:walrus-over-ternary (cause: rule structure of py_gram.lark)',
 	'T5_error_line': 'the summary line number is begin_line+1 of an input token, inside [1, #lines] when that token has a non-negative source map',
 	'T5_error_line_counterexample': 'an EOF-derived cause token (source map -1) prints line (0): the unguarded statement is false',
 }
